@@ -22,7 +22,7 @@ INVARIANTS = {
     "C09": ["C09_FramesDisjoint", "C02_Accounted"],
     "C10": ["C10_Sound", "C10_InsideBC"],
     "C17": ["C17_Exact", "C17_Conservation", "C17_Solutions"],
-    "C19": ["C19_Fits"],
+    "C19": ["C19_Fits", "C19_ErrorOnlyWhenFull", "C02_Complete", "C02_NoDuplicate"],
 }
 # (family, n quick, n thorough)
 FAMILIES = {
@@ -35,7 +35,7 @@ FAMILIES = {
     "C09": [("configs", 2000, 40000)],
     "C10": [("shaving", 1500, 30000)],
     "C17": [("mixed", 1500, 30000), ("configs", 800, 16000)],
-    "C19": [("mixed", 500, 5000)],
+    "C19": [("cap", 1500, 30000)],
 }
 LIVENESS = {"C03": ("opt", 400, 4000), "C04": ("mixed", 400, 4000)}
 
